@@ -356,17 +356,21 @@ def run(ctx, col: Collector):
         for c in ('project', 'enums', 'tables', 'refs', 'table_groups', 'sticky_notes'):
             col.check(c in reads, 'C02-compose', f'render_db:{c}', f'db.{c} is rendered', f'render_db never reads db.{c}: these elements are missing from the rendered document',
                       node=rd.node, file=rd.file)
-        gens = [n for n in ast.walk(rd.node) if isinstance(n, (ast.GeneratorExp, ast.ListComp)) and norm(n.generators[0].iter) == f'{dbp}.refs']
-        okf = bool(gens) and [norm(i).replace(' ', '') for i in gens[0].generators[0].ifs] == [f'not{norm(gens[0].generators[0].target)}.inline']
-        col.check(okf, 'C02-compose', 'render_db:non-inline-refs', 'standalone references are rendered at document level, inline ones are not',
-                  'render_db does not select exactly the references with `not ref.inline`', node=rd.node, file=rd.file)
+        from .common import select_filter
+        st, f = select_filter(rd.node, f'{dbp}.refs', [('not', ('truthy', 'VAR.inline'))])
+        (col.ok if st == 'ok' else col.bad if st == 'bad' else col.unk)(
+            'C02-compose', 'render_db:non-inline-refs',
+            'standalone references are rendered at document level, inline ones are not' if st == 'ok' else
+            (f'render_db selects references under {f["conds"]}; expected exactly `not ref.inline`' if st == 'bad' else 'render_db does not select from db.refs in a recognised form'),
+            node=rd.node, file=rd.file)
         ro = idx.func('pydbml.renderer.dbml.default.column', 'render_options')
         m = [a.arg for a in ro.node.args.args][0]
-        gens = [n for n in ast.walk(ro.node) if isinstance(n, (ast.GeneratorExp, ast.ListComp)) and norm(n.generators[0].iter) == f'{m}.get_refs()']
-        oki = bool(gens) and [norm(i).replace(' ', '') for i in gens[0].generators[0].ifs] == [f'{norm(gens[0].generators[0].target)}.inline'] \
-            and norm(gens[0].elt) == f'{norm(gens[0].generators[0].target)}.dbml'
-        col.check(oki, 'C02-compose', 'render_options:inline-refs', 'inline references are written as settings of the column that declares them',
-                  'the column options do not emit `ref.dbml for ref in model.get_refs() if ref.inline`', node=ro.node, file=ro.file)
+        st, f = select_filter(ro.node, f'{m}.get_refs()', [('truthy', 'VAR.inline')], elt_is_var=False, elt_pred=lambda f: f['elt'] == f['var'] + '.dbml')
+        (col.ok if st == 'ok' else col.bad if st == 'bad' else col.unk)(
+            'C02-compose', 'render_options:inline-refs',
+            'inline references are written as settings of the column that declares them' if st == 'ok' else
+            (f'the column options select from model.get_refs() under {f["conds"]} rendering `{f["elt"]}`; expected `ref.dbml for ref in model.get_refs() if ref.inline`' if st == 'bad'
+             else 'the column options do not iterate model.get_refs() in a recognised form'), node=ro.node, file=ro.file)
         # order preserved: elements joined in collection order
         j = [n for n in ast.walk(rd.node) if isinstance(n, ast.Call) and isinstance(n.func, ast.Attribute) and n.func.attr == 'join']
         col.check(bool(j) and not any(isinstance(x, ast.Call) and norm(x.func) in ('sorted', 'reversed', 'set') for x in ast.walk(rd.node)), 'C02-compose', 'render_db:order',
